@@ -76,14 +76,22 @@ CLAIMED = {
          "(1) 15 command sets (5 control types x 8/16-bit indices x one object / two objects / two headers) x {DIRECT_OPERATE, SELECT step, OPERATE step} x faithful echo + every single mutation (every byte +-1, every status code in every object, header dropped / duplicated / appended, object dropped / added / reordered, empty): success iff faithful; OPERATE written only after a faithful SELECT echo, with the next sequence number and identical objects. (2) 18 request kinds x {none, reply lost, connection lost, channel disabled, association removed} x step 0..3 + full request queue: exactly one outcome per user future / FileReader, error iff a failure was injected, within (steps+2) response timeouts.",
          "Trusted: engine codecs; the minimal ideal outstation. Master shut-down by dropping all handles is not driven. A failure at the CLOSE step of a completed file/directory read may still report success.",
          "DESIGN.md §5 C16", True),
+ "C17": ("model_checking",
+         "bounded-exhaustive exploration of all reply / indication / failure histories of the real master task per association configuration, against a start-up order machine and a back-off reference; the back-off of a permanently failing task is followed to its fix-point",
+         "Configurations: automatic disable / integrity / enable on or off x time sync none / LAN / non-LAN x event scan x retry strategy (8 quick, 60 thorough), one periodic poll configured. Alphabet of 14 events (ideal reply; with RESTART / NEED_TIME / OVERFLOW / CLASS_1_EVENTS; IIN2 rejection; malformed reply; silence; unsolicited with / without data and with / without RESTART; reconnect; advance to the next timer), depth 4 (5-6 thorough). Oracle: every request written is the highest-priority pending step (clear restart > disable > integrity > time sync (two steps) > enable > event scan > poll), a RESTART indication re-arms clear / integrity / enable, no poll while a step is pending, retries never before failure + min(base*2^(n-1), max) and by that instant, unsolicited data neither delivered nor confirmed before the integrity poll (re)completed, empty ones confirmed; back-off sequences for all (min,max) in {1 ms,1 s,3 s,1 h}^2 to the fix-point.",
+         "Trusted: engine codecs, paused clock. An IIN2 rejection of an automatic DISABLE / ENABLE / clear-restart request is treated by the library as an answer (no retry), which the property allows.",
+         "DESIGN.md §5 C17", True),
+ "C19": ("model_checking",
+         "bounded-exhaustive exploration of submission / poll / reply / time histories of the real master task with 1..3 associations, against a scheduling monitor over virtual timestamps and a poll-count bound; a watchdog turns a non-terminating history into a violation",
+         "Events: submit a user READ or command on association a, add a poll (period kT), demand a poll, prompt reply, reply 1 ms before the response timeout, no reply, advance to 1 ms before / exactly the earliest deadline; depth 4-5 (5-7 thorough); keep-alive off / 4T. Monitor: at most one request outstanding per channel; user requests in submission order and ahead of polls; a poll never before completion + period (or demand) and written as soon as it is due on an idle channel; associations with waiting user requests take turns; link status requests only after the keep-alive silence; the master future is not polled at all while the clock advances to 1 ms before the earliest deadline, at most 200 times per event, and every history terminates (watchdog).",
+         "Trusted: paused clock (timers fire at their exact instant), kernel poll counting. Start-up tasks are off here (C17).",
+         "DESIGN.md §5 C19", True),
 }
 
 NOT_YET = {
  "C01": "designed in DESIGN §5 C01 (hostile-input sweeps + session states); check not built yet",
  "C02": "designed in DESIGN §5 C02 (paired master/outstation simulation); check not built yet",
- "C17": "designed in DESIGN §5 C17; check not built yet",
  "C18": "designed in DESIGN §5 C18; check not built yet",
- "C19": "designed in DESIGN §5 C19; check not built yet",
  "C20": "designed in DESIGN §5 C20; check not built yet",
 }
 
